@@ -189,7 +189,8 @@ func runKnownCanaries(t *testing.T, prop string) {
 			}
 		}
 		if r.Viol != nil {
-			violate(t, prop, failure{Rule: r.Viol.Rule, Detail: "canary " + filepath.Base(f) + ": " + r.Viol.Detail, Sig: violSig(r.Viol)})
+			violate(t, prop, failure{Rule: r.Viol.Rule, Detail: "canary " + filepath.Base(f) + ": " + r.Viol.Detail, Sig: violSig(r.Viol), Replay: hc})
+			t.FailNow() // rapid refuses to run on a test that has already failed
 		}
 	}
 }
